@@ -188,3 +188,22 @@ def run_shard(tier, shard, res: Result):
         if i % 2003 == 0:
             res.sample({"op": op, "args": [a if not isinstance(a, str) else a[:60]
                                            for a in args], "sent": sent[:120]}, 3)
+
+
+def replay(witness, res: Result):
+    op, args = witness["op"], list(witness["args"])
+    exp_verbs = {"havespace": "HAVESPACE", "getscript": "GETSCRIPT", "deletescript": "DELETESCRIPT",
+                 "setactive": "SETACTIVE", "putscript": "PUTSCRIPT", "checkscript": "CHECKSCRIPT",
+                 "renamescript": "RENAMESCRIPT"}
+    exp = (exp_verbs.get(op, op.upper()),
+           [("num", a) if isinstance(a, int) else ("str", a) for a in args])
+    srv = ms.Server(users={b"user": b"pw"})
+    sess, r = mslab.authed_session(srv)
+    srv.canned = [b'{5}\r\nkeep;\r\nOK "done"\r\n' if op == "getscript" else b'OK "done"\r\n'] * 3
+    mark = sess.wire.mark()
+    out = sess.call(op, *args)
+    sent = sess.wire.sent_since(mark)
+    print("sent:", sent[:300], "outcome:", out)
+    bad = judge(op, tuple(args), exp, out, sent)
+    if bad:
+        res.violation({"defect": bad[0], "trigger": trigger_of(args)}, {"op": op, "sent": sent[:300]})
